@@ -132,11 +132,26 @@ def run(ctx, proof):
         ctx.notes.append("meta_game not importable")
 
     # sampling several DIFFERENT hidden games: row j must hold the gaps of game j
-    for _ in range(2 if ctx.quick else 10):
+    for samp_i in range(4 if ctx.quick else 16):
         n = 3 if rng.random() < 0.5 else 4
         comp = rng.choice(["superadditive", "superadditive_cached"])
         gap = rng.choice(gaps)
         sample_games = [games.sa_closure_game(rng, n, "int", neg_singletons=False) for _ in range(3)]
+        if samp_i % 2:
+            # different hidden games that AGREE on everything initially known (singletons and grand coalition, like the factory
+            # families): game 2 takes the smallest superadditive interior values, game 3 other ones in between
+            n = 4
+            g1 = games.sa_closure_game(rng, n, "int", neg_singletons=False, slack_p=1.0)
+            g2 = list(g1)
+            for s_ in games.ids_by_size(n):
+                if 2 <= games.popcount(s_) < n:
+                    g2[s_] = max(g2[a_] + g2[s_ ^ a_] for a_ in games.proper_splits(s_))
+            g3 = list(g2)
+            for s_ in games.ids_by_size(n):
+                if 2 <= games.popcount(s_) < n:
+                    g3[s_] = max([g3[a_] + g3[s_ ^ a_] for a_ in games.proper_splits(s_)] + [g2[s_] if rng.random() < 0.5 else g1[s_]])
+            sample_games = [g1, g2, g3] if games.is_sa(g3, n) else [g1, g2, g1]
+            ctx.count("sampling_games_agree_on_initial_knowledge", int(sample_games[0] != sample_games[1]))
         k = rng.randint(1, 2)
         feed = envlib.GameFeed(n, sample_games)
         g = IncompleteCooperativeGame(n, bl.computer_fn(comp))
@@ -173,6 +188,15 @@ def run(ctx, proof):
         def rclose(a, b):
             return abs(float(a) - float(b)) <= 1e-9 * mag
         max_steps = rng.randint(1, 3 if n == 3 else 2)
+        if bs_i == 0:
+            # a run that goes on until the gap is exactly 0 for several sizes (factory games: everything is pinned down after
+            # 7 of the 10 coalitions of a 4-player game), so that "not filled yet" and "gap 0" must not be confused
+            import campaign as _camp
+            n, reps, vscale = 4, 2, Fraction(1)
+            one = [Fraction(x) for x in _camp.repo_generator_game(rng, 4, ["factory"])[0]]
+            sample_games = [one, list(one)]                  # the same owner in every sample (as the fixed-owner factory family)
+            mag = max(abs(float(x)) for v in sample_games for x in v) * 2 ** n or 1.0
+            max_steps = 9
         res = {}
         for p in ([1, 2] if ctx.quick else [1, 2, 4]):
             env, feed = envlib.make_env(n, comp, gap, max_steps, games.minimal_ids(n), sample_games)
